@@ -66,9 +66,15 @@ static void judge_1d(Rng& rng, const std::function<double(double)>& f, double a,
 		{
 			ClauseStat& cs = clause("Adaptive-Simpson-within-1e-9(informational)");
 			cs.n++;
+			// The finding: |S2 - S| is not a bound.  Its worst form is a coincidence S2 = S at the coarsest level (the whole interval, or its halves,
+			// accepted after 5-16 evaluations): the result then carries the error of that coarse Simpson estimate, which for these families reaches 1e-3.
+			// Beyond 1e-5 only such coarse-level acceptances are matched; an error above 1e-5 after more refinement, or above 1e-3 at all, is a violation.
+			bool coarse_coincidence = err > 1e-5 && err <= 1e-3 && tr.n <= 16;
 			if(err > 1e-9 && err <= 1e-5)
 				known_hit(KEY_AS, "error between 1e-9 and 1e-5 of the integral of |f|", det().num("relative_error", err));
-			judge("Adaptive-Simpson-no-gross-error", err, 1e-5, det, "C13-adaptive-simpson-gross-error");
+			else if(coarse_coincidence)
+				known_hit(KEY_AS, "error between 1e-5 and 1e-3 of the integral of |f|, accepted at the coarsest level (at most 16 evaluations)", det().num("relative_error", err));
+			judge("Adaptive-Simpson-no-gross-error", coarse_coincidence ? 0.0 : err, 1e-5, det, "C13-adaptive-simpson-gross-error");
 		}
 	}
 	else
